@@ -403,8 +403,11 @@ pub fn run_c16(ctx: &Ctx) -> i32 {
                 if !seq.contains(&key) && ex.panics.iter().all(|p| p.is_none()) {
                     vio.push(mk("not-linearizable", format!("results {:?} with this final state are not produced by any of the {} sequential orders", ex.records, seq.len())));
                 }
-                if seq_all_wf && !well_formed_key(&ex.sys.built) && seq.contains(&key) {
-                    // reachable sequentially as well: not a concurrency finding
+                if seq_all_wf && !well_formed_key(&ex.sys.built) {
+                    // "in particular the tree stays well-formed": also when some sequential order of
+                    // the same calls (e.g. a write handle dropped after its file and the parent
+                    // directory were removed) reaches the same state
+                    vio.push(mk("final-state-not-well-formed", format!("results {:?}: the final tree has an entry without a parent directory", ex.records)));
                 }
                 observed.insert(key);
             });
